@@ -24,7 +24,7 @@ func c19Value(r *rand.Rand, idx int) any {
 	}
 	pick := func() string {
 		if len(later) == 0 || r.Intn(5) == 0 {
-			return []string{"zz", "nope.x"}[r.Intn(2)]
+			return []string{"zz", "nope.x", "c..d", ".a", "e.", "f..g"}[r.Intn(6)] // (a name with an empty component names nothing)
 		}
 		return later[r.Intn(len(later))]
 	}
